@@ -80,9 +80,10 @@ def predicate(job, res):
             if ent.get('ill_formed') or not fs or any('repairable' not in f for f in fs):
                 continue
             head = fs[:11]
-            if len(head) == 11 and all(f['dmg'] and not f['repairable'] for f in head):
+            lost = lambda f: (not f['in_hash_ok']) and not f['repairable']      # flagged, and block + stored parity beyond capacity
+            if len(head) == 11 and all(lost(f) for f in head):
                 continue
-            if not any(f['dmg'] and not f['repairable'] for f in fs):
+            if not any(lost(f) for f in fs):
                 continue          # fully repairable files are C01's subject
             ob = res['outputs'].get(ent['rel'])
             for bi, f in enumerate(fs):
@@ -287,14 +288,14 @@ def facade_answer(algo, n, k, m, e):
 
 
 def facade_wrapper_case(ctx, algo, n, k, m, e, er=None):
-    """codecs 1/2: ECCMan.decode = FacadeDec.fac_decode12 around the third-party decoder.  The inner decoder's own answer
-    is captured and handed to the extracted model; the model's verdict (answer let through / refused by the capacity
-    check) and bytes must equal what ECCMan.decode did."""
+    """ECCMan.decode = FacadeDec.fac_decode12 around the third-party decoder (codecs 1/2: unireedsolomon's decode / decode_fast;
+    codecs 3/4: reedsolo.rs_correct_msg_nofsynd / rs_correct_msg, since fix 90b3a68 under the same capacity check).  The inner
+    decoder's own answer is captured and handed to the extracted model; the model's verdict (answer let through / refused by the
+    capacity check) and bytes must equal what ECCMan.decode did."""
+    import sys
     from props import rs_common as R
     c = R.codec(algo, n, k)
     inner = {'ans': None}
-    em = c.ecc_manager
-    saved = (em.decode, em.decode_fast)
 
     def wrap(f):
         def g(*a, **kw):
@@ -304,7 +305,13 @@ def facade_wrapper_case(ctx, algo, n, k, m, e, er=None):
                             bytes(r[1], 'latin-1') if isinstance(r[1], str) else bytes(bytearray(r[1])))
             return r
         return g
-    em.decode, em.decode_fast = wrap(saved[0]), wrap(saved[1])
+    if algo in (1, 2):
+        holder, names = c.ecc_manager, ('decode', 'decode_fast')
+    else:
+        holder, names = sys.modules[type(c).__module__].reedsolo, ('rs_correct_msg', 'rs_correct_msg_nofsynd')
+    saved = [getattr(holder, nm) for nm in names]
+    for nm, f in zip(names, saved):
+        setattr(holder, nm, wrap(f))
     try:
         with R.quiet():
             try:
@@ -314,14 +321,34 @@ def facade_wrapper_case(ctx, algo, n, k, m, e, er=None):
                     rm, re_ = c.decode(m, e, enable_erasures=True, erasures_char=er)
                 impl = 'S %s %s' % (hx(bytes(rm)), hx(bytes(re_)))
             except Exception as ex:
-                impl = 'N' if type(ex).__name__ == 'RSCodecError' else 'EXC ' + type(ex).__name__
+                impl = 'N' if type(ex).__name__ in ('RSCodecError', 'ReedSolomonError') else 'EXC ' + type(ex).__name__
     finally:
-        em.decode, em.decode_fast = saved
+        for nm, f in zip(names, saved):
+            setattr(holder, nm, f)
     ia = inner['ans']
     line = 'facdec12 %d %d 0 %d %s %s %d %s %s' % (n, k, 256 if er is None else er, hx(m), hx(e), 1 if ia else 0,
                                                    hx(ia[0]) if ia else '-', hx(ia[1]) if ia else '-')
     model = ctx.model.run([line])[0]
     return impl, model, ia
+
+
+def facade_radius_case_er(algo, n, k, m, e, er):
+    """the same clause with erasure handling on: an accepted answer that changes the message lies within 2*errors + erasures <= n-k,
+    an erasure being every received symbol equal to the erasure symbol (the message is full length here: no padding)"""
+    from props import rs_common as R
+    c = R.codec(algo, n, k)
+    with R.quiet():
+        try:
+            rm, re_ = c.decode(m, e, enable_erasures=True, erasures_char=er)
+            rm, re_ = bytes(rm), bytes(re_)
+        except Exception as ex:
+            return True, {'decoder': type(ex).__name__}
+        ok = bool(c.check(rm, re_))
+    rec, rep = m + e, rm + re_
+    er_pos = set(i for i, x in enumerate(rec) if x == er)
+    ne = sum(1 for i, (x, y) in enumerate(zip(rec, rep)) if x != y and i not in er_pos) + abs(len(rec) - len(rep))
+    bad = ok and rm != m and 2 * ne + len(er_pos) > n - k
+    return not bad, {'answer': [rm.hex(), re_.hex()], 'check': ok, 'errors': ne, 'erasures': len(er_pos), 'n-k': n - k}
 
 
 def facade_radius_case(algo, n, k, m, e):
@@ -355,7 +382,7 @@ def facade_radius_stream(ctx):
                         r[p] = rng.choice([x for x in range(256) if x != w[p]])
                     r = bytes(r)
                     holds, det = facade_radius_case(algo, n, k, r[:k], r[k:])
-                    if algo in (1, 2):
+                    if True:
                         L = rng.choice([k, k, max(1, k - 1)])          # also short (left-padded) messages
                         er = rng.choice([None, None, 0, 255])
                         m_, e_ = r[k - L:k], r[k:]
@@ -363,7 +390,26 @@ def facade_radius_stream(ctx):
                         ctx.count('facade_wrapper:' + ('let-through' if impl.startswith('S') else 'refused' if impl == 'N' else 'other'))
                         if impl != model:
                             ctx.disagree({'kind': 'facade-wrapper', 'algo': algo, 'n': n, 'k': k, 'm': m_.hex(), 'e': e_.hex(), 'er': er},
-                                         model, impl, what='ECCMan.decode (codecs 1/2) != FacadeDec.fac_decode12 on the captured inner answer')
+                                         model, impl, what='ECCMan.decode != FacadeDec.fac_decode12 on the captured inner answer')
+                    # erasures on: f symbols set to the erasure symbol plus e wrong symbols with 2e + f just beyond n-k
+                    ers = rng.choice([0, 255])
+                    nf = rng.randrange(1, n - k + 1)
+                    ne_ = (n - k - nf) // 2 + 1
+                    if nf + ne_ <= n:
+                        pos2 = rng.sample(range(n), nf + ne_)
+                        r2 = bytearray(w)
+                        for p in pos2[:nf]:
+                            r2[p] = ers
+                        for p in pos2[nf:]:
+                            r2[p] = rng.choice([x for x in range(256) if x != w[p] and x != ers])
+                        r2 = bytes(r2)
+                        h2, det2 = facade_radius_case_er(algo, n, k, r2[:k], r2[k:], ers)
+                        ctx.evaluations += 1
+                        ctx.count('facade_radius_erasures:' + ('refused' if 'decoder' in det2 else 'answered'))
+                        if not h2:
+                            ctx.fail({'kind': 'facade-er', 'algo': algo, 'n': n, 'k': k, 'm': r2[:k].hex(), 'e': r2[k:].hex(), 'er': ers}, det2)
+                        else:
+                            ctx.traces += 1
                     ctx.evaluations += 1
                     ctx.count('facade_radius:' + ('refused' if 'decoder' in det else 'answered'))
                     case = {'kind': 'facade', 'algo': algo, 'n': n, 'k': k, 'm': r[:k].hex(), 'e': r[k:].hex()}
@@ -395,6 +441,9 @@ def replay_case(ctx, case):
     if case.get('stream') == 'toolrun':
         from props import toolrun_lib
         return toolrun_lib.replay(ctx, case)
+    if case.get('kind') == 'facade-er':
+        h, det = facade_radius_case_er(case['algo'], case['n'], case['k'], bytes.fromhex(case['m']), bytes.fromhex(case['e']), case['er'])
+        return {'holds': h, 'implementation': det}
     if case.get('kind') == 'facade-wrapper':
         impl, model, ia = facade_wrapper_case(ctx, case['algo'], case['n'], case['k'], bytes.fromhex(case['m']), bytes.fromhex(case['e']), case.get('er'))
         return {'holds': True, 'implementation': impl, 'model': model, 'inner_answer': [x.hex() for x in ia] if ia else None,
@@ -416,7 +465,7 @@ def replay_case(ctx, case):
 
 
 def shrink(ctx, case):
-    if case.get('stream') == 'toolrun':
+    if case.get('stream') == 'toolrun' or str(case.get('kind', '')).startswith('facade'):
         return case
     def bad(c):
         r = pipe.run_jobs([c])[0]
